@@ -317,7 +317,7 @@ impl Property for C08 {
     }
 
     fn cases(&self, tier: Tier) -> u32 {
-        tier.pick(50_000, 1_000_000)
+        tier.pick(400_000, 4_000_000)
     }
 
     fn rule(&self) -> String {
